@@ -9,6 +9,7 @@ import os
 import numpy as np
 
 from . import solverlib as sl
+from .solverlib import fhex  # noqa: E402
 from .common import Out, args, q
 from .d07 import TraceOut, replay
 from .solverlib import fem, tracer
@@ -144,6 +145,30 @@ def main():
         runs.append({"last": int(levels[-1]), "u": q(field[0].values, S)})
     if runs:
         laws.write({"id": "el-all", "kind": "el", "nt": True, "utol": 16, "runs": runs})
+
+    # ---------------------------------------------------------------- vector-valued ramp tables, the same step evaluated repeatedly
+    # a boundary is ramped with one ROW of a 2-d table per substep (a value per prescribed unknown); the same Step object is used
+    # twice in one job and the job is evaluated twice: every pass must apply row i in substep i (compared with a copy of the table
+    # taken before the first evaluation)
+    rid = "ramp-table-rows"
+    if laws.want(rid):
+        field = field3(2)
+        solid = fem.SolidBody(fem.NeoHooke(mu=1.25, bulk=5.0), field)
+        bounds = fem.dof.symmetry(field[0])
+        right = fem.Boundary(field[0], fx=1.0, skip=(0, 1, 1))
+        bounds["right"] = right
+        nrow = int(right.dof.size)
+        table = np.array([[0.0625 * (s + 1) + 0.015625 * k for k in range(nrow)] for s in range(3)])
+        original = table.copy()
+        step = fem.Step(items=[solid], ramp={right: table}, boundaries=bounds)
+        applied = []
+        job = fem.Job(steps=[step, step], callback=lambda j, i, res: applied.append(fhex(res.x[0].values.ravel()[right.dof])))
+        tracer.begin(rid)
+        job.evaluate(verbose=0, maxiter=25)
+        job.evaluate(verbose=0, maxiter=25)
+        tracer.end()
+        tout.flush()
+        laws.write({"id": rid, "kind": "ramptable", "nt": True, "applied": applied, "rows": [fhex(r_) for r_ in original], "nsub": 3})
 
     # ---------------------------------------------------------------- replay of model behaviours
     bf = opts.get("behaviours")
